@@ -26,6 +26,7 @@ func bodyBytes(seed int64, size int) []byte {
 type attemptSeen struct {
 	k                                             int
 	methodEq, urlEq, hdrEq, clEq, teEmpty, bodyEq bool
+	entryFiles, afterFiles                        int // temporary files present when the handler is entered / after its writes
 }
 
 // bufHandler is the protected handler: it checks what it was handed against the client's request and
@@ -51,7 +52,7 @@ func (h *bufHandler) script() M {
 func (h *bufHandler) ServeHTTP(w http.ResponseWriter, req *http.Request) {
 	h.k++
 	sc := h.script()
-	s := attemptSeen{k: h.k}
+	s := attemptSeen{k: h.k, entryFiles: len(tmpFiles())}
 	if h.origHdr == nil { // through a real server: the first attempt's view is the reference for URL and headers
 		h.origURL, h.origHdr = req.URL.String(), req.Header.Clone()
 	}
@@ -82,6 +83,18 @@ func (h *bufHandler) ServeHTTP(w http.ResponseWriter, req *http.Request) {
 				break
 			}
 		}
+	case "hdrslice": // edits header VALUES in place, through the slices (a scrubber, a normaliser, a sort)
+		for name, vv := range req.Header {
+			for i := range vv {
+				vv[i] = "SCRUBBED"
+			}
+			_ = name
+		}
+	case "urlfields": // edits the URL's fields and user info in place
+		req.URL.RawQuery, req.URL.Fragment, req.URL.Host = "scrubbed=1", "frag", "mutated.example"
+		if req.URL.User != nil {
+			req.URL.User = nil
+		}
 	case "url":
 		req.URL.Path = "/mutated"
 		req.URL.RawQuery = "evil=1"
@@ -107,6 +120,7 @@ func (h *bufHandler) ServeHTTP(w http.ResponseWriter, req *http.Request) {
 		n := int(c.(float64))
 		w.Write(bytes.Repeat([]byte{byte('a' + h.k%26)}, n))
 	}
+	h.seen[len(h.seen)-1].afterFiles = len(tmpFiles())
 }
 
 func tmpFiles() []string {
@@ -233,7 +247,7 @@ func runBuffer(sc Scenario, tr *Trace, seed int64) {
 		var seen []any
 		for _, s := range h.seen {
 			seen = append(seen, M{"k": s.k, "methodEq": s.methodEq, "urlEq": s.urlEq, "hdrEq": s.hdrEq, "clEq": s.clEq,
-				"teEmpty": s.teEmpty, "bodyEq": s.bodyEq})
+				"teEmpty": s.teEmpty, "bodyEq": s.bodyEq, "entryFiles": s.entryFiles, "afterFiles": s.afterFiles})
 		}
 		if seen == nil {
 			seen = []any{}
